@@ -192,7 +192,7 @@ func (a *acc) merge(b *acc) {
 
 var (
 	reDigits = regexp.MustCompile(`[0-9]+`)
-	reQuoted = regexp.MustCompile(`'.*?'|\x60.*?\x60`)
+	reQuoted = regexp.MustCompile(`(?s)'.*?'|\x60.*?\x60`)
 )
 
 func errClass(err error) string {
@@ -247,7 +247,11 @@ func programs(size int, thorough bool) [][]byte {
 		cnt[i] = byte(i + 1)
 	}
 	out = append(out, cnt)
-	for bit := 0; bit < size*8; bit++ {
+	step := 5 // quick: every 5th single-bit value (5 is coprime to the 8-bit and 5-bit group sizes)
+	if thorough {
+		step = 1
+	}
+	for bit := 0; bit < size*8; bit += step {
 		h := make([]byte, size)
 		h[bit/8] = 1 << uint(7-bit%8)
 		out = append(out, h)
@@ -532,14 +536,21 @@ func sectionCodecs(a *acc) {
 				w := base32.NewEncoder(ep.e, &buf)
 				w.Write(in)
 				w.Close()
+				nopad := strings.HasSuffix(ep.name, "nopad")
 				if buf.String() != s {
-					a.violation("base32-stream-encoder-differs", id, fmt.Sprintf("base32 %s: stream encoder gives %q, EncodeToString %q", ep.name, buf.String(), s), c)
-				}
-				if !strings.HasSuffix(ep.name, "nopad") {
-					got, err := ioutil.ReadAll(base32.NewDecoder(ep.e, strings.NewReader(s)))
-					if err != nil || !bytes.Equal(got, in) {
-						a.violation("base32-stream-round-trip-broken", id, fmt.Sprintf("base32 %s: stream decode of %q = %x, err=%v", ep.name, s, got, err), c)
+					key := "base32-stream-encoder-differs"
+					if nopad && len(buf.String()) == (len(in)+4)/5*8 {
+						key = "base32-nopadding-stream-encoder-emits-whole-quantum"
 					}
+					a.violation(key, id, fmt.Sprintf("base32 %s: stream encoder (NewEncoder, Write, Close) of %x gives %q, EncodeToString gives %q", ep.name, in, buf.String(), s), c)
+				}
+				got, err := ioutil.ReadAll(base32.NewDecoder(ep.e, strings.NewReader(s)))
+				if err != nil || !bytes.Equal(got, in) {
+					key := "base32-stream-round-trip-broken"
+					if nopad && len(in)%5 != 0 && len(got) == len(in)/5*5 && bytes.Equal(got, in[:len(got)]) {
+						key = "base32-nopadding-stream-decoder-loses-final-partial-quantum"
+					}
+					a.violation(key, id, fmt.Sprintf("base32 %s: stream decode (NewDecoder) of %q = %x err=%v, want %x", ep.name, s, got, err, in), c)
 				}
 				a.class("base32 round trip ok", 1)
 			})
@@ -664,7 +675,7 @@ func sectionMnemonics(a *acc, thorough bool) {
 					}
 				}
 				// every single-bit-set entropy (thorough), every 8th bit (quick)
-				step := 8
+				step := 13
 				if thorough {
 					step = 1
 				}
@@ -679,14 +690,19 @@ func sectionMnemonics(a *acc, thorough bool) {
 			}
 			// every word of the list: index v in the first and in the last full word position
 			stepW := 1
-			if !thorough && code != "en" {
-				stepW = 16
+			if !thorough {
+				stepW = 61
+				if code == "en" {
+					stepW = 3
+				}
 			}
 			for v := 0; v < 2048; v += stepW {
 				e := new(big.Int).Lsh(big.NewInt(int64(v)), 128-11)
 				checkMnemonic(a, code, words, leftPad(e.Bytes(), 16))
-				e2 := new(big.Int).Lsh(big.NewInt(int64(v)), 128-121) // 11th word
-				checkMnemonic(a, code, words, leftPad(e2.Bytes(), 16))
+				if thorough {
+					e2 := new(big.Int).Lsh(big.NewInt(int64(v)), 128-121) // 11th word
+					checkMnemonic(a, code, words, leftPad(e2.Bytes(), 16))
+				}
 			}
 		}(l.code, l.words)
 	}
@@ -742,8 +758,8 @@ func splice(stem string, hs []string, maxWin int, f func(string)) {
 	}
 }
 
-func decodeAddressHostile(a *acc, s string) {
-	for _, nd := range nets {
+func decodeAddressHostile(a *acc, s string, on []netDef) {
+	for _, nd := range on {
 		guard(a, "address-decoder-panic", s, func() {
 			a.add("evaluations", 1)
 			a.add("hostile_inputs", 1)
@@ -847,7 +863,7 @@ func sectionHostile(a *acc, thorough bool) {
 	// bare short strings into every decoder
 	par(func(a *acc) {
 		for _, s := range short {
-			decodeAddressHostile(a, s)
+			decodeAddressHostile(a, s, nets)
 			decodeBech32Hostile(a, s)
 			decodeBase32Hostile(a, s)
 			decodeMnemonicHostile(a, s, "en")
@@ -869,7 +885,14 @@ func sectionHostile(a *acc, thorough bool) {
 					h[i] = byte(i*7 + 3)
 				}
 				stem := refSegwitAddress(nd.p.Bech32HRPSegwit, 0, h)
-				splice(stem, spliceStrs, win, func(s string) { decodeAddressHostile(a, s) })
+				splice(stem, spliceStrs, win, func(s string) {
+					// a string whose first characters differ from the stem may name another network
+					if thorough || !strings.HasPrefix(s, stem[:3]) {
+						decodeAddressHostile(a, s, nets)
+					} else {
+						decodeAddressHostile(a, s, []netDef{nd})
+					}
+				})
 				if size == 20 && nd.name == "main" {
 					splice(stem, spliceStrs, win, func(s string) { decodeBech32Hostile(a, s) })
 					splice(strings.ToUpper(stem), spliceStrs, win, func(s string) { decodeBech32Hostile(a, s) })
@@ -902,7 +925,7 @@ func sectionHostile(a *acc, thorough bool) {
 				for w := 0; w <= 2 && i+w <= len(stem); w++ {
 					for _, t1 := range tokens {
 						for _, t2 := range append([]string{"\x01none"}, tokens...) {
-							if size != 16 && t2 != "\x01none" {
+							if t2 != "\x01none" && (size != 16 || (!thorough && w != 2)) {
 								continue
 							}
 							ins := []string{t1}
@@ -969,6 +992,9 @@ func main() {
 		func() { sectionMnemonics(a, run.Thorough()) },
 		func() { sectionHostile(a, run.Thorough()) },
 	} {
+		if only := os.Getenv("VERIF_C29_ONLY"); only != "" && only != fmt.Sprint(si) {
+			continue // debugging aid: run one section
+		}
 		wg.Add(1)
 		go func(si int, f func()) {
 			defer wg.Done()
